@@ -31,6 +31,8 @@ for rs in ("chained", "simple"):
     job(rs, "gaplow", 2, 8, group=True)
     job(rs, "regress", 2, 8, group=True)
     job(rs, "nolock", 0, 6, group=True)
+    job(rs, "revote", 0, 3, "{1, 2, 3}", group=True)      # a replica may vote twice in a view: equivocation in three views in a row
+    job(rs, "revote", 2, 5, "{3, 4, 5}", group=True)
     # ("gaplow": only the link between the committed block and its child may skip views -- no Agreement violation exists within
     #  four adversarial views after the prefix (1.9 M states explored); the known attack needs seven)
     job(rs, "gaphigh", 2, 6)
